@@ -146,7 +146,7 @@ macro_rules! shard {
         #[kani::proof]
         #[kani::unwind($unwind)]
         #[kani::stub(crate::frame::header::crc32, crc_stub)]
-        fn $name() {
+        pub(crate) fn $name() {
             $f::<$({ $arg }),*>()
         }
     };
@@ -156,7 +156,7 @@ macro_rules! shard_mf {
         #[kani::proof]
         #[kani::unwind($unwind)]
         #[kani::stub(crate::frame::header::crc32, crc_stub)]
-        fn $name() {
+        pub(crate) fn $name() {
             $f::<$({ $arg }),*>();
             must_fail_witness();
         }
@@ -233,77 +233,6 @@ mod real_geometry {
     shard!(c15_real_frame_q, 3, real_frame, 0);
     shard!(c15_real_t, 16, real_accounting, 10);
     shard_mf!(c15_real_q_mf, 9, real_accounting, 3);
-}
-
-// ---------------------------------------------------------------------------------------------
-// probes (B13): reader over symbolic block bytes
-// ---------------------------------------------------------------------------------------------
-#[cfg(quickwit_oss_mrecordlog_verif_block16)]
-mod probes_b13 {
-    use super::*;
-    #[kani::proof]
-    #[kani::unwind(20)]
-    #[kani::stub(crate::frame::header::crc32, crc_stub)]
-    fn probe_symblock_1() {
-        let mut data = [0u8; DEV];
-        let blk: [u8; B] = kani::any();
-        let mut i = 0;
-        while i < B {
-            data[i] = blk[i];
-            i += 1;
-        }
-        crc_reader_side(0);
-        let mut r = RecordReader::open(ArrR::new(data, 1));
-        let res = r.go_next();
-        match res {
-            Ok(b) => {
-                kani::cover!(b, "delivered");
-                kani::cover!(!b, "end");
-            }
-            Err(ReadRecordError::Corruption) => {
-                kani::cover!(true, "corruption");
-            }
-            Err(e) => {
-                std::mem::forget(e);
-                panic!("io error impossible");
-            }
-        }
-    }
-}
-
-#[cfg(quickwit_oss_mrecordlog_verif_block16)]
-mod probes_len0 {
-    use super::*;
-    fn detect(n: usize) {
-        let mut i = 0;
-        let mut acc: u32 = kani::any();
-        while i < n {
-            acc = acc.wrapping_mul(3).wrapping_add(i as u32);
-            i += 1;
-        }
-        assert!(i == n);
-    }
-    #[kani::proof]
-    #[kani::unwind(20)]
-    #[kani::stub(crate::frame::header::crc32, crc_stub)]
-    fn probe_len0_a() {
-        crc_writer_side();
-        let mut fw = FrameWriter::create(ArrW::new());
-        fw.write_frame(FrameType::Full, &[1, 1, 1, 1, 1]).unwrap();
-        let mut buf = fw.get_underlying_wrt().buf;
-        buf[4] = 0; // len -> 0
-        crc_reader_side(0);
-        let mut fr = FrameReader::open(ArrR::new(buf, 3));
-        let r1 = fr.read_frame();
-        let k1 = match &r1 { Ok(_) => 1, Err(_) => 2 };
-        std::mem::forget(r1);
-        detect(k1);
-        let r2 = fr.read_frame();
-        let k2 = match &r2 { Ok(_) => 3, Err(_) => 4 };
-        std::mem::forget(r2);
-        detect(k2);
-        detect(fr.read().next_block_calls + 5);
-    }
 }
 
 // ---------------------------------------------------------------------------------------------
@@ -400,7 +329,7 @@ pub(crate) mod real_crc {
             #[kani::proof]
             #[kani::unwind($unwind)]
             #[kani::stub(crc32fast::Hasher::internal_new_specialized, no_specialized)]
-            fn $name() {
+            pub(crate) fn $name() {
                 $f::<{ $n }>()
             }
         };
